@@ -100,5 +100,5 @@ def opLinecol (toks : List String) : String :=
   | _ => "bad-args"
 
 def ops : List (String × (List String → String)) :=
-  [("lint", opLint), ("getparser", opGetParser), ("linecol", opLinecol)]
+  [("c19.lint", opLint), ("c19.getparser", opGetParser), ("c19.linecol", opLinecol)]
 end Ops.C19
